@@ -640,4 +640,30 @@ func (f *File) checkHeapOffsets(h *fractalHeap, ids [][]byte, owner string) {
 			return
 		}
 	}
+	// Second detection (added by the harness author): after the first heap object has been
+	// deleted no live id points into the header any more. Heap objects of dense storage are
+	// attribute or link messages, whose first byte is a version in 1..3; if that holds for
+	// every object only when the offsets are taken not to count the block header, the
+	// deviation is the same one.
+	if len(h.blocks) != 1 || !f.tolerate(TolFHeapOffset) || len(ids) == 0 {
+		return
+	}
+	plausible := func() bool {
+		for _, id := range ids {
+			obj, _, err := f.fhObject(h, id, 0)
+			if err != nil || len(obj) == 0 || obj[0] < 1 || obj[0] > 3 {
+				return false
+			}
+		}
+		return true
+	}
+	if plausible() {
+		return
+	}
+	h.noHdrOffset = true
+	if plausible() {
+		f.issue("fheap-offset-in-header:FHDB", h.abs, "%s: managed heap objects only decode when offsets do not count the block header", owner)
+		return
+	}
+	h.noHdrOffset = false
 }
